@@ -529,3 +529,45 @@ def check_field_ranges(ctx, rule):
                     'valid encodings are rejected' if (got[0] > want[0] or got[1] < want[1]) else 'invalid encodings are accepted'), ctx.where(B, rbb),
                     key='DOM:%s%s:field-range' % (DEC, name))
     return n
+
+
+# ------------------------------------------------------------------- canonical small/large forms ----
+SMALL_LARGE = {119: (118, 255, 'atom name bytes'), 104: (105, 255, 'tuple arity'), 115: (100, 255, 'atom name bytes')}
+
+
+def check_canonical_forms(ctx, rule):
+    """Where the format offers a short and a long form, the encoder uses the short one for everything that fits it and the long
+    one only beyond: a term decoded from the short form is then written in the short form again (byte-identical re-encoding),
+    and nothing that needs the long form is squeezed into the short one."""
+    from .ranges import Ranges
+    from .wire import prim_of
+    P = ctx.P
+    n = 0
+    for fn in sorted(encoder_fns(ctx.F)):
+        B = P.B(fn)
+        R = None
+        writes = {}
+        for bb, t in B.calls():
+            p = prim_of(t)
+            if p and p[0] == 'w' and p[1] == 'u8' and len(t['args']) > 1 and t['args'][1]['k'] == 'c' and 'v' in t['args'][1]:
+                writes.setdefault(t['args'][1]['v'], bb)
+        for small, (large, mx, what) in SMALL_LARGE.items():
+            if small not in writes or large not in writes:
+                continue
+            R = R or Ranges(B)
+            fs, fl = R.facts_at(writes[small]), R.facts_at(writes[large])
+            keys = [k for k in fs if k in fl and isinstance(k, tuple) and k and k[0] == 'len']
+            n += 1
+            inst = '%s:%d/%d' % (fn.rsplit('::', 1)[1], small, large)
+            if not keys:
+                ctx.undecided(rule, inst, 'no length guard common to the two forms found')
+                continue
+            k = keys[0]
+            if fs[k][1] == mx and fl[k][0] == mx + 1:
+                ctx.ok(rule, inst, 'short form for %s 0..=%d, long form from %d' % (what, mx, mx + 1), ctx.where(B, writes[large]))
+            else:
+                ctx.bad(rule, inst, 'the short form (tag %d) is used for %s up to %s and the long form (tag %d) from %s; the short form of the format holds up to %d: %s' % (
+                    small, what, fs[k][1], large, fl[k][0], mx,
+                    'a value of exactly %d is written in the long form, so a term received in the short form is not re-encoded byte-identically' % mx if fs[k][1] < mx else 'a value above %d is written with a one-byte length' % mx),
+                    ctx.where(B, writes[large]), key='DOM:%s:threshold-%d-%d' % (fn, small, large))
+    return n
